@@ -72,6 +72,9 @@ func genC14(r *Rng, seed uint64, mode string) *C14Spec {
 				w.Sep = SepCfg{Kind: "preset", Preset: sharedPreset}
 			case 1:
 				cc := genCharCfg(r, charOpt{small: true, budget: 30, maxLen: 2, maxReq: 1, noEmptied: true})
+				if r.Chance(0.25) {
+					cc.Length = 0 // a constructed separator whose recipe cannot generate: yields "" every time
+				}
 				w.Sep = SepCfg{Kind: "recipe", Recipe: &cc}
 			}
 			if w.Sep.Kind == "altempty" {
